@@ -304,6 +304,47 @@ example : let s := runSys (initSys Example.cfgA Example.cfgB) (sched.take (sched
     s.a.closed = false ∧ s.b.closed = true ∧ s.toA ≠ [] := by decide +kernel
 end ExampleTerm
 
+/-- **Transfers in progress complete and are acknowledged.** In every reachable state of the two-endpoint
+    system: once an endpoint has nothing left awaiting its final acknowledgement — which is the case
+    whenever it closes gracefully (`C09_no_half_open`: it closes only when idle) — every transfer
+    whose final segment it ever emitted has been reported `success`, the peer has completely received
+    exactly that bundle, and it is the bundle the user queued under that id. Between faithful endpoints
+    no transfer is ever refused, so nothing "in progress" can end any other way. -/
+theorem C09_in_progress_complete (cfgA cfgB : Cfg) (sch : List SysEv)
+    (a1 : 0 < cfgA.segInit) (a2 : cfgA.privExt = false) (a3 : 0 < cfgA.segMru)
+    (b1 : 0 < cfgB.segInit) (b2 : cfgB.privExt = false) (b3 : 0 < cfgB.segMru)
+    (hwf : ∀ pre, pre <+: sch → SysWF (runSys (initSys cfgA cfgB) pre))
+    (hs : ∀ ev ∈ sch, ev.sendOK) :
+    let s := runSys (initSys cfgA cfgB) sch
+    (s.a.txPendAck = [] → ∀ f t x d, Msg.xferSegment f t x d ∈ s.a.emitted → hasEnd f = true →
+        t ∈ s.a.successLog ∧ ∃ d', (t, d') ∈ s.b.rxLog ∧ (⟨t, d'⟩ : TxItem) ∈ s.a.sendLog)
+    ∧ (s.b.txPendAck = [] → ∀ f t x d, Msg.xferSegment f t x d ∈ s.b.emitted → hasEnd f = true →
+        t ∈ s.b.successLog ∧ ∃ d', (t, d') ∈ s.a.rxLog ∧ (⟨t, d'⟩ : TxItem) ∈ s.b.sendLog) := by
+  intro s
+  have hi : SysInv s := sysInv_run sch _ (sysInv_init cfgA cfgB a1 a2 a3 b1 b2 b3) hwf hs
+  have hw : SysWF s := hwf sch (List.prefix_refl _)
+  obtain ⟨tB, tA⟩ := transport s hi hw
+  obtain ⟨ka, kb⟩ := sys_lift_init KInv kInv_step kInv_init cfgA cfgB sch
+  obtain ⟨sa, sb⟩ := C01_success_after_receipt cfgA cfgB sch a1 a2 a3 b1 b2 b3 hwf hs
+  have one : ∀ (w r : Ep), KInv w → EpInv r → w.processed <+: r.emitted → w.txPendAck = [] →
+      ∀ f t x d, Msg.xferSegment f t x d ∈ w.emitted → hasEnd f = true → t ∈ w.successLog := by
+    intro w r hk hr hpre hpa f t x d hm he
+    have := hk _ hm
+    simp only [kOK] at this
+    rcases this he with h | h | ⟨rr, hrr⟩
+    · rw [hpa] at h; cases h
+    · exact h
+    · -- a faithful peer never emits XFER_REFUSE
+      have := hr.emit _ (hpre.subset hrr)
+      simp [emitOK] at this
+  constructor
+  · intro hpa f t x d hm he
+    have hsu := one s.a s.b ka hi.ib tA hpa f t x d hm he
+    exact ⟨hsu, sa t hsu⟩
+  · intro hpa f t x d hm he
+    have hsu := one s.b s.a kb hi.ia tB hpa f t x d hm he
+    exact ⟨hsu, sb t hsu⟩
+
 /-! ### always finishes: a bound on the number of steps -/
 
 theorem runSys_append (s : Sys) (l1 l2 : List SysEv) : runSys s (l1 ++ l2) = runSys (runSys s l1) l2 := by
@@ -552,7 +593,8 @@ example : let s0 := runSys (initSys Example.cfgA Example.cfgB) sch
 
 example : let s := runSys (initSys Example.cfgA Example.cfgB) (sch ++ int)
     s.a.closed = true ∧ s.b.closed = true ∧ Var.mu s = 0 ∧ s.a.successLog = [1] ∧ s.b.rxLog = [(1, [1, 2, 3])]
-    ∧ s.b.txPendStart = [] ∧ (s.a.emitted ++ s.b.emitted).all (fun m => m != .keepalive) = true
+    ∧ s.b.txPendStart = [] ∧ s.a.txPendAck = [] ∧ s.b.txPendAck = []
+    ∧ (s.a.emitted ++ s.b.emitted).all (fun m => m != .keepalive) = true
     ∧ (Var.cands.all fun ev => !decide (Var.Enabled s ev)) = true := by decide +kernel
 /-- the example's configurations are the keepalive-free, one-active-one-passive kind of `C09_always_finishes_default` -/
 example : Example.cfgA.keepalive = 0 ∧ Example.cfgB.keepalive = 0
